@@ -149,7 +149,6 @@ type vC01World struct {
 	notes   []string
 	// ground truth
 	tampered bool
-	fkeys    map[string]bool
 }
 
 func (x *vC01World) sub(l, zone string) string {
@@ -321,7 +320,7 @@ func (x *vC01World) keyMsg(z *vC01Zone) *dns.Msg {
 }
 
 func vC01NewWorld(r *rand.Rand) *vC01World {
-	x := &vC01World{w: vC01NewW(r), r: r, now: uint32(time.Now().Unix()), msgs: map[*dns.Msg]int{}, ds: map[string]*dns.Msg{}, keys: map[string]*dns.Msg{}, dname: map[string]*dns.Msg{}, fkeys: map[string]bool{}}
+	x := &vC01World{w: vC01NewW(r), r: r, now: uint32(time.Now().Unix()), msgs: map[*dns.Msg]int{}, ds: map[string]*dns.Msg{}, keys: map[string]*dns.Msg{}, dname: map[string]*dns.Msg{}}
 	names := []string{".", "tld.", "zone.tld.", "sub.zone.tld."}
 	depth := 2 + r.Intn(3)
 	if vC01F != nil {
@@ -1077,11 +1076,6 @@ func vC01MidCase(rnd *rand.Rand, r *Resolver, tr *vC01Trace) {
 		x.anchors = nil
 		kinds = append(kinds, "t:no-anchor")
 	}
-	// F9 shape: a signed zone below an insecure cut, reached on a shared server with an ancestor's DS in hand
-	if shared && z.cut == "island" && len(parentDS) > 0 {
-		x.fkeys["unsigned-ds-trust-link"] = true
-	}
-
 	x.install(r)
 	ctx := middleware.WithResponseMeta(context.Background(), &middleware.ResponseMeta{})
 	req := new(dns.Msg)
@@ -1102,12 +1096,6 @@ func vC01MidCase(rnd *rand.Rand, r *Resolver, tr *vC01Trace) {
 	}
 	envCoq := x.coqEnv(r, rk, resp, subject, negative || mode >= 5)
 	var body, k, goFail string
-	fkey := ""
-	for _, f := range []string{"unsigned-ds-trust-link"} {
-		if x.fkeys[f] {
-			fkey = f
-		}
-	}
 	desc := map[string]any{"world": kinds, "qname": qname, "zone_arg": zoneArg, "cd": cd, "parentDS": vC01Pres(parentDS), "answer": vC01Pres(resp.Answer), "authority": vC01Pres(resp.Ns)}
 	switch {
 	case mode == 9:
@@ -1170,11 +1158,6 @@ func vC01MidCase(rnd *rand.Rand, r *Resolver, tr *vC01Trace) {
 	}
 	if goFail != "" {
 		m["go_fail"] = goFail
-	}
-	// F9 is what is OBSERVED, not the world: the island's own, untampered data or denial came back with AD because the
-	// unsigned DS below the insecure cut was taken as a trust link. Any other failure in such a world is judged strictly.
-	if fkey != "" && genuine && !wildNoDenial && strings.HasPrefix(goFail, "AD on ") {
-		m["fkey"] = fkey
 	}
 	tr.emit(m)
 
